@@ -100,3 +100,73 @@ theorem inv_drop {O : Ops} {par : Idx → Idx} : ∀ (levels : List Level) (lv0 
 end cover
 
 end Pyiga.Hier
+
+namespace Pyiga.Hier
+
+/-! ### downward part -/
+
+theorem mem_cellParent (cells : List Idx) (c : Idx) : c ∈ cellParent cells ↔ ∃ q ∈ cells, c = parTp q := by
+  simp only [cellParent, mem_dedup, List.mem_map, parTp]
+  constructor
+  · rintro ⟨q, hq, rfl⟩; exact ⟨q, hq, rfl⟩
+  · rintro ⟨q, hq, rfl⟩; exact ⟨q, hq, rfl⟩
+
+theorem tpDown_single (l : Level) (aux : List Idx) : tpDown [l] aux = [inter aux l.act] := by
+  unfold tpDown; rfl
+
+theorem tpDown_cons_cons (l l2 : Level) (rest : List Level) (aux : List Idx) :
+    tpDown (l :: l2 :: rest) aux = inter aux l.act :: tpDown (l2 :: rest) (cellParent (diff aux l.act)) := by
+  rw [tpDown]
+
+/-- `_TP_to_HMesh_cells_down` on the levels `lv, lv-1, …, 0` (list `ls` in that order): entry `j` is the
+set of active cells of level `lv-j` that are the `j`-th ancestor of a cell `q` of `aux` none of whose
+closer ancestors is active. -/
+theorem tpDown_mem : ∀ (ls : List Level) (aux : List Idx) (j : Nat) (c : Idx), j < ls.length →
+    (c ∈ (tpDown ls aux).getD j [] ↔ c ∈ (lvl ls j).act ∧
+      ∃ q ∈ aux, anc parTp j q = c ∧ ∀ j', j' < j → anc parTp j' q ∉ (lvl ls j').act)
+  | [], _, _, _, hj => by simp at hj
+  | [l], aux, j, c, hj => by
+    have : j = 0 := by simpa using hj
+    subst this
+    simp only [tpDown_single, List.getD_cons_zero, mem_inter, lvl, anc]
+    constructor
+    · rintro ⟨h1, h2⟩; exact ⟨h2, c, h1, rfl, fun _ h => by omega⟩
+    · rintro ⟨h1, q, hq, rfl, _⟩; exact ⟨hq, h1⟩
+  | l :: l2 :: rest, aux, 0, c, _ => by
+    simp only [tpDown_cons_cons, List.getD_cons_zero, mem_inter, lvl, anc]
+    constructor
+    · rintro ⟨h1, h2⟩; exact ⟨h2, c, h1, rfl, fun _ h => by omega⟩
+    · rintro ⟨h1, q, hq, rfl, _⟩; exact ⟨hq, h1⟩
+  | l :: l2 :: rest, aux, j + 1, c, hj => by
+    have ih := tpDown_mem (l2 :: rest) (cellParent (diff aux l.act)) j c (by simpa using hj)
+    rw [tpDown_cons_cons, List.getD_cons_succ, ih]
+    have e : lvl (l :: l2 :: rest) (j + 1) = lvl (l2 :: rest) j := by simp [lvl]
+    rw [e]
+    constructor
+    · rintro ⟨h1, q2, hq2, hc, hall⟩
+      obtain ⟨q, hq, rfl⟩ := (mem_cellParent _ _).1 hq2
+      obtain ⟨hqa, hqn⟩ := mem_diff.1 hq
+      refine ⟨h1, q, hqa, by rw [anc_succ']; exact hc, ?_⟩
+      intro j' hj'
+      cases j' with
+      | zero => simpa [lvl, anc] using hqn
+      | succ j' =>
+        have := hall j' (by omega)
+        rw [anc_succ']
+        simpa [lvl] using this
+    · rintro ⟨h1, q, hq, hc, hall⟩
+      have hqn : q ∉ l.act := by simpa [lvl, anc] using hall 0 (by omega)
+      refine ⟨h1, parTp q, (mem_cellParent _ _).2 ⟨q, mem_diff.2 ⟨hq, hqn⟩, rfl⟩, by rw [← anc_succ']; exact hc, ?_⟩
+      intro j' hj'
+      have := hall (j' + 1) (by omega)
+      rw [anc_succ'] at this
+      simpa [lvl] using this
+
+/-- a proper ancestor of a cell of a refinement region is a deactivated cell -/
+theorem anc_deact {O : Ops} {VC VF : Nat → Idx → Prop} {par : Idx → Idx} (levels : List Level)
+    (h : Inv O VC VF par 0 (VC 0) levels) (n l : Nat) (Q : Idx) (hQ : InΩ levels (l + n + 1) Q) :
+    anc par (n + 1) Q ∈ (lvl levels l).deact := by
+  have h1 := anc_inΩ levels h n (l + 1) Q (by rwa [show l + 1 + n = l + n + 1 by omega])
+  exact ((inv_cover_succ levels h l (inΩ_lt h1) _).1 h1).2
+
+end Pyiga.Hier
